@@ -27,6 +27,24 @@ func (q Quantizer) Validate() error {
 	}
 }
 
+// Validates the quantizer together with the vector index it is attached to.
+// The product quantizer cannot be constructed for every combination, a schema
+// that is accepted here must be usable later on.
+func (q Quantizer) ValidateFor(vectorSize uint, distanceMetric string) error {
+	if err := q.Validate(); err != nil {
+		return err
+	}
+	if q.Type == QuantizerProduct {
+		if int(vectorSize)%q.Product.NumSubVectors != 0 {
+			return fmt.Errorf("vector size %d must be divisible by numSubVectors %d", vectorSize, q.Product.NumSubVectors)
+		}
+		if distanceMetric != DistanceEuclidean && distanceMetric != DistanceCosine && distanceMetric != DistanceDot {
+			return fmt.Errorf("distance metric %s is not supported with product quantization", distanceMetric)
+		}
+	}
+	return nil
+}
+
 type BinaryQuantizerParamaters struct {
 	// The threshold value for the binary quantizer. It is a pointer to distinguish
 	// between 0 value vs not set.
